@@ -26,7 +26,7 @@ def setup(run, theorems):
     core.write_generated('WorkerPaths', X.emit(paths))
     run.counts['worker_loop_paths_extracted'] = len(paths)
     run.counts['worker_loop_events_extracted'] = sum(len(p[3]) for p in paths)
-    run.lean(['JugModel.Props.' + run.prop, 'JugModel.Props.WorkerBridge', 'jugdrv'], theorems_expected=theorems + ['Jug.WorkerBridge.worker_conforms'])
+    run.lean(['JugModel.Props.' + run.prop, 'JugModel.Props.WorkerBridge', 'JugModel.Props.LoopBridge', 'jugdrv'], theorems_expected=theorems + ['Jug.WorkerBridge.worker_conforms'])
     run.trusted = ['Lean 4.33.0 kernel', 'axioms propext, Classical.choice, Quot.sound',
                    'harness/jugverif/extract_worker.py (exhaustive scripted-environment exploration of the real execution_loop; emitted paths are checked by the kernel against lstep)',
                    'harness/jugverif/sched.py (gated scheduler: every store/lock call and function entry/exit of the real worker loop is one atomic event)',
@@ -35,6 +35,34 @@ def setup(run, theorems):
                        'redis protocol exercised through an in-memory stand-in with single-command atomicity (no server in the sandbox)',
                        'signals are raised at the gate points (function entry, hooks, wait loop), not between arbitrary byte codes']
     return core.Driver() if run.driver_ok else None
+
+
+def loop_correspondence(run, drv):
+    """the scheduling loop as a Lean program (Model/Loop.lean, theorem LoopBridge.loop_scans_all for lists of any length) against the real
+    execution_loop: same task lists, flags, wait-cycle counts and answer streams, event lists compared. A difference is not a verdict by
+    itself: the obligations the theorems need (per-task protocol `lconforms`, scan obligation `lscanOK`) are then evaluated directly on the
+    real traces, which is the tie the completeness theorem had before the loop program existed; only a trace that breaks them is a violation."""
+    if drv is None:
+        return
+    from jugverif import loopcheck
+    rng = core.rng_for(run.seed, 'loop', run.prop)
+    quick = run.tier == 'quick'
+    dis = loopcheck.check_loop(run, drv, rng, 300 if quick else 3000, 4 if quick else 30)
+    n = sum(v for k, v in run.counts.items() if k.startswith('loop_cases_'))
+    run.counts['loop_model_disagreements'] = dis
+    if dis == 0:
+        run.obligation('scheduling loop: the Lean program loopTrace and the real execution_loop produce the same events on %d task lists (0-300 tasks; flags, wait cycles, '
+                       'answer streams; %d events), so LoopBridge.loop_scans_all (any list length) applies to the code' % (n, run.counts.get('loop_events_compared', 0)), True)
+    else:
+        bad = [f for f in run.failures if f['key'] in ('loop-obligation', 'loop-diverges')]
+        if bad:
+            run.obligation('scheduling loop: Lean program = real execution_loop', False, '%d of %d task lists differ and some real traces break the obligations' % (dis, n))
+        else:
+            run.notes.append('the scheduling-loop program of Model/Loop.lean no longer describes execution_loop exactly (%d of %d task lists give different events); every real trace still '
+                             'meets the obligations of the completeness theorem (per-task protocol and scan obligation evaluated on the trace), so the tie falls back to sampled traces plus '
+                             'the extracted paths' % (dis, n))
+            run.obligation('scheduling loop: every real trace of execution_loop on %d task lists meets the per-task protocol and the scan obligation (the loop program differs on %d of them: '
+                           'loop_scans_all no longer applies literally)' % (n, dis), True)
 
 
 def describe_case(P, params):
@@ -220,6 +248,22 @@ def replay(path, prop):
     """re-run the stored case on the real code and re-evaluate the monitors"""
     d = json.load(open(path))
     r = d['replay']
+    if r.get('kind') == 'loop':
+        from jugverif import loopcheck
+        run = core.Run(prop, 'quick')
+        drv = core.Driver()
+        try:
+            c = {k: r[k] for k in ('deps', 'flags', 'nr', 'answers')}
+            real = loopcheck.run_real(c['deps'], c['flags'], c['nr'], list(c['answers']))
+            print('task list (dependency lists):', c['deps'], 'flags:', c['flags'], 'wait cycles:', c['nr'], 'answers:', c['answers'][:80])
+            print('events of the real execution_loop:', json.dumps(real[:200]))
+            ok = loopcheck.judge_real_trace(run, drv, c, real)
+        finally:
+            drv.close()
+        for f in run.failures:
+            print('FAILS:', f['what'][:600])
+        print('property FAILS on this input' if not ok else 'property holds on this input')
+        return 0 if ok else 1
     if r.get('kind') != 'exec':
         print(d['what'])
         return 1
